@@ -371,22 +371,26 @@ PROPS["C05"] = dict(
 
 PROPS["C20"] = dict(
     level="model_checking",
-    technique="bounded symbolic execution of go/ssa (gosmt): the real Server.setup wiring, NodesManager.AddNode/RemoveNode, zero-group ready loop, trySnapshot, shared-group snapshot/processSnapshot and badgerWAL executed over every membership history, compaction point and restart in the bound; all choices are path decisions (no solver variables: verdict by exhaustive path enumeration of the symbolic executor)",
-    explanation="reduced claim (DESIGN.md section 5 C20): on one member, after every history of joins and removals with compaction of the zero group's log after any change, cluster.Conn.Nodes() lists exactly the acknowledged members with the announced addresses, and every restart on the same data directory (log replay or compacted snapshot) recovers the same list with the same addresses; the zero-group snapshot one member produces, installed on another member, teaches it every listed peer's address and no removed peer. Convergence of the other members' views through etcd/raft replication and the gRPC join handshake under message loss are not decided",
+    technique="bounded symbolic execution of go/ssa (gosmt): real Servers (Server.setup / JoinCluster, NodesManager, the gRPC AddNode handler and client stub, zero-group ready loops, trySnapshot, shared-group snapshot/processSnapshot, badgerWAL) assembled into a 1-3 member cluster over an in-memory transport and a shared committed log; join order, broken handshakes, removals, compaction points and restarts are path decisions (no solver variables: verdict by exhaustive path enumeration of the symbolic executor)",
+    explanation="reduced claim (DESIGN.md section 5 C20): (a) cluster of up to 3 real Servers: members join one after the other through the real handshake (stream optionally broken after any message, joiner restarted and retried), the last one is optionally removed, the leader optionally compacts after any change, any one member restarts with its original command line or with -join=false; after quiescence every live member of the configuration lists exactly the acknowledged members with the addresses they announced; (b) one member over up to 3 lives on one data directory with joins/removals/compaction in each life; (c) a zero-group snapshot installed on another member teaches it every listed peer and no removed one. What etcd/raft does between proposing and committing (elections, message loss/reordering between raft peers) is not decided: the members' zero groups share one committed log",
     runs={
         "quick": [
+            dict(pkg=".", entry="VerifC20Cluster", bounds="members=2", no_native=True, reach=["joined", "restarted", "end"]),
+            dict(pkg=".", entry="VerifC20Cluster", bounds="members=3", no_native=True, reach=["joined", "restarted", "end"]),
             dict(pkg=".", entry="VerifC20Restart", bounds="lives=2,maxchanges=2", no_native=True, reach=["restarted", "end"]),
             dict(pkg=".", entry="VerifC20Install", bounds="maxchanges=2", no_native=True, reach=["installed"]),
         ],
         "thorough": [
+            dict(pkg=".", entry="VerifC20Cluster", bounds="members=3", no_native=True, reach=["joined", "restarted", "end"]),
+            dict(pkg=".", entry="VerifC20Cluster", bounds="members=4,nocompact=1", no_native=True, max_seconds=3000, reach=["joined", "restarted", "end"]),
             dict(pkg=".", entry="VerifC20Restart", bounds="lives=3,maxchanges=2", no_native=True, max_seconds=3000, reach=["restarted", "end"]),
             dict(pkg=".", entry="VerifC20Restart", bounds="lives=2,maxchanges=3", no_native=True, reach=["restarted", "end"]),
             dict(pkg=".", entry="VerifC20Install", bounds="maxchanges=3", no_native=True, reach=["installed"]),
         ],
     },
-    outside="clusters of more than one live member (replication of membership entries is etcd/raft's), the gRPC join handshake and message loss during it, restarts in the middle of a Ready (crash points inside the ready loop are C03/C06)",
-    assumptions=COMMON_ASSUME + ["the etcd raft node is a harness node that commits every proposal at once, re-delivers the stored entries after the snapshot on (re)start and appends the bootstrap membership entry on StartNode",
-                                 "net.Listen, grpc.NewServer and service registration are stubs; Badger is the API-level model with contents shared per Dir"],
+    outside="clusters of 5 members; elections, leader changes and loss/reordering of raft messages between members (etcd/raft's: the model hands every member the same committed log, a snapshot first when the leader compacted past it); more than one restart per history in the cluster harness; concurrent joins; restarts in the middle of a Ready (C03/C06)",
+    assumptions=COMMON_ASSUME + ["etcd/raft is a harness: the members' zero groups share one committed log; every proposal commits at once and is handed to every live member of the configuration in order (the leader's stored snapshot first when the member's next entry was compacted away); a (re)started member gets its own stored entries re-delivered after its own snapshot; StartNode appends the bootstrap membership entry with the peer Context anndb passed",
+                                 "gRPC is an in-memory transport: dialling :<port> reaches the Server listening there, the AddNode stream is served by the real handler and can break before any message; net.Listen, grpc.NewServer and service registration are stubs; Badger is the API-level model with contents shared per Dir"],
     no_native_replay=True,
 )
 
